@@ -78,7 +78,7 @@ class PInterp(jx.Interp):
 
 
 def _dedup_sides(side):
-    seen, out = set(), []
+    seen, out = {}, []
     for kind, cond, desc in side:
         if isinstance(cond, bool):
             if not cond:
@@ -87,10 +87,9 @@ def _dedup_sides(side):
         s = z3.simplify(cond)
         if z3.is_true(s):
             continue
-        h = s.get_id()
-        if h in seen:
+        if any(s.eq(t) for t in seen.get(s.hash(), ())):
             continue
-        seen.add(h)
+        seen.setdefault(s.hash(), []).append(s)  # keep the term alive: z3 ast ids are reused after garbage collection
         out.append((kind, cond, desc))
     return out
 
@@ -399,8 +398,22 @@ def _smooth_case(c, case):
         if isz(o) and z3.is_app_of(o, z3.Z3_OP_ITE):
             # interpolant split (sound for any C): no-interface => not C, and not C => smoothed == plain
             C = o.arg(0)
-            c.prove(f"agree{list(idx)}: no interface => smoothing predicate of the code is false", z3.Implies(noif, z3.Not(C)),
-                    dom + sc.axioms_for([C], kinds=("sqrt",)), replay, key=key + ":agree")
+            nv, ni = len(c.violations), len(c.inconclusive)
+            okA = c.prove(f"agree{list(idx)}: no interface => smoothing predicate of the code is false", z3.Implies(noif, z3.Not(C)),
+                          dom + sc.axioms_for([C], kinds=("sqrt",)), replay, key=key + ":agree")
+            if not okA and len(c.violations) == nv and bmode in ("sym", "inf", "zero"):
+                # the predicate can hold without an interface but the witness happened to have equal values: ask for a
+                # witness of the full claim on the tanh-free slice (beta = 0 / inf), where the values are piecewise polynomial
+                sm, pl = o.arg(1), sc.toz(plain[idx])
+                if bmode == "sym":
+                    sm, pl, Cb = (z3.simplify(z3.substitute(t, (B, z3.RealVal(0)))) for t in (sm, pl, C))
+                    extra = [B == 0]
+                else:
+                    Cb, extra = C, []
+                okB = c.prove(f"agree{list(idx)}: no interface => predicate false or smoothed == plain (tanh-free slice)",
+                              z3.Implies(noif, z3.Or(z3.Not(Cb), sm == pl)), dom + extra + sc.axioms_for([Cb], kinds=("sqrt",)), replay, key=key + ":agree")
+                if len(c.violations) > nv:
+                    del c.inconclusive[ni:]
             c.prove(f"agree{list(idx)}: predicate false => smoothed == plain", z3.Implies(z3.Not(C), sc.toz(sc.eq(o, plain[idx]))), dom, replay, key=key + ":agree")
             if idx == (0,) * len(shape):
                 c.witness("twin: the code's smoothing predicate can hold", C, dom + sc.axioms_for([C], kinds=("sqrt",)))
@@ -415,10 +428,23 @@ def _smooth_case(c, case):
     c.witness("twin: cell with an interface exists", z3.And(G2 > 0, (E - r[mid]) * (E - r[mid]) < k2 * G2), dom)
     ramp = [r[idx] == z3.RealVal(Fraction(2 + 3 * idx[0] + idx[1], 10)) for idx in np.ndindex(*shape)]
     om, pm = out[mid], plain[mid]
-    if bconst in (None, 0.0):
-        c.witness("twin: smoothing changes the value at an interface (beta=0 ramp)", sc.toz(sc.ne(om, pm)), dom + ramp + fix(0, Fraction(1, 2)))
-    else:
-        c.witness("twin: assumptions satisfiable", True, dom + ramp)
+    c.witness("twin: assumptions satisfiable", True, dom + ramp)
+    # the smoothing branch does something: on some concrete legal input the interpreted smoothed value differs from the plain one
+    def cand(kind):
+        a = np.empty(shape, dtype=object)
+        for idx in np.ndindex(*shape):
+            a[idx] = min(Fraction(2 + 3 * idx[0] + idx[1], 10), Fraction(1)) if kind == 0 else [Fraction(1, 2), Fraction(95, 100), Fraction(1)][min(idx[0], 2)]
+        return a
+
+    differs = False
+    for kind in (0, 1):
+        for ev in (0.5, 0.95):
+            for bv in ((8.0, 0.0) if bconst is None else (None,)):
+                cargs = (cand(kind),) + ((jx.fracarr(np.asarray(bv)),) if bv is not None else ()) + (jx.fracarr(np.asarray(ev)),)
+                oc_ = jx.to_numeric(jx.lift(tr(*cargs, interp=PInterp())))
+                pc_ = jx.to_numeric(jx.lift(jx.call(plain_fn, *cargs, interp=PInterp())[0]))
+                differs = differs or bool(np.max(np.abs(oc_ - pc_)) > 1e-6)
+    c.witness("twin: smoothing changes the value at an interface (concrete legal inputs)", differs)
 
 
 def run_case(c, case):
